@@ -82,7 +82,7 @@ ADDENDA = {
  "C09": "Blocks with one axis at the largest legal extent (1024 voxels) and just below it go through the same round trips.",
  "C12": "A continuous-pressure phase (one reserving client against four POST maxlabel clients looping without barriers, in-process) checks that reserved label ranges never overlap or go backwards. Three scenarios (clean / abrupt / SIGKILL restarts) issue more than one reservation stride of mutation ids in two repositories whose repo ids differ from their root version ids.",
  "C17": "One write in five carries all-background blocks over existing data.",
- "C20": "The model-based mixed workload (well-formed by construction) runs under the same panic / liveness monitors; scenario probes replay well-formed request sequences that once hung or panicked; hostile generation includes systematic variants (each of the first eight 32-bit header fields at 2^32-1, JSON numbers swapped / shifted, containers emptied, values retyped, block keys changed, documented neuronjson metadata fields with wrong types, paths cut after each segment), every valid control twice, and the maintenance requests (reload) after the batches; a request that outlives the watchdog is a violation only when the goroutine dump shows it parked for minutes with no goroutine left that could wake it (quiescence oracle), otherwise inconclusive. Throttled requests (throttle=true), among them refused ones with right-length bodies, are followed by a throttled read that must not be answered 503 while nothing else is in flight.",
+ "C20": "The model-based mixed workload (well-formed by construction) runs under the same panic / liveness monitors; scenario probes replay well-formed request sequences that once hung or panicked; hostile generation includes systematic variants (each of the first eight 32-bit header fields at 2^32-1, JSON numbers swapped / shifted, containers emptied, values retyped, block keys changed, documented neuronjson metadata fields with wrong types, paths cut after each segment), every valid control twice, and the maintenance requests (reload) after the batches; a request that outlives the watchdog is a violation only when the goroutine dump shows it parked for minutes with no goroutine left that could wake it (quiescence oracle), otherwise inconclusive. Throttled requests (throttle=true), among them refused ones with right-length bodies, are followed by a throttled read that must not be answered 503 while nothing else is in flight. The catalogue also holds the documented endpoints that the endpoint-reach report (DESIGN.md appendix C) showed no workload had ever requested: instance tags, settings and metadata, rendered views (isotropic, pseudocolor, arb), bulk and log readers (indices-compressed, sparsevols-coarse, mutations, mutations-range, map-stats), extents and resolution posts.",
  "C13": "Every second history reads elements before POST sync; a bulk scenario stores 1200 tagged elements with POST blocks and compares every tag view after the low-memory and the in-memory reload.",
  "C14": "Two more operations: the unwritten octants of lower-resolution blocks arriving as simultaneous one-block POST blocks?downres=true requests, and a supervoxel written over two neighbouring blocks that is split inside the first.",
  "C18": "Streams of 4095 to 100003 runs (thorough: up to 2^20+1) go through the streamed and the whole-buffer readers.",
